@@ -37,6 +37,8 @@
 (*   List, Set : t -> [t] (t not a list);  ArgMin, ArgMax :                *)
 (*   {arg: ta, value: tv} -> ta  (ta not a list: on SQLite they are built  *)
 (*   from ArgMinK / ArgMaxK, which collect the arguments in a list)        *)
+(*   a predicate-level aggregation `f? Op= e` folds one bag over all the    *)
+(*   rules of the predicate: e has one type in all of them                 *)
 (*   P(f: e, ...)             e : type of column f of P; P must have f     *)
 (*   F(f: e, ...) as a value  ... and the type of F's logica_value         *)
 (*   l == r (conjunct)        l : t, r : t                                 *)
@@ -165,7 +167,7 @@ CmpOps == {"==", "!=", "<", "<=", ">", ">="}
 AggOps == {"Sum", "Min", "Max", "Count", "List", "Set", "ArgMin", "ArgMax"}
 
 RECURSIVE Chk(_, _, _, _, _, _), ChkItems(_, _, _, _, _, _, _), ChkSame(_, _, _, _, _, _, _),
-          ChkCall(_, _, _, _, _, _, _), ChkAgg(_, _, _, _, _, _, _), ChkBody(_, _, _, _, _),
+          ChkCall(_, _, _, _, _, _, _), ChkAgg(_, _, _, _, _, _, _, _), ChkBody(_, _, _, _, _),
           ChkConj(_, _, _, _, _)
 
 (* items all of one type et (threaded): returns the refined et *)
@@ -193,24 +195,40 @@ ChkCall(p, args, i, ren, path, ctx, st) ==
        IN ChkCall(p, args, i + 1, ren, path, ctx, r.st)
 
 (* aggregate `op` applied to expression e (the body, if any, was handled) *)
-ChkAgg(op, e, want, ren, path, ctx, st) ==
+(* aw: what is already known of the type of the aggregated argument (for a   *)
+(* predicate-level aggregation the argument is a column of its own: all      *)
+(* rules of the predicate aggregate one bag, so they give it one type).      *)
+(* Returns t (type of the result), a (type of the argument), st.             *)
+ChkAgg(op, e, want, aw, ren, path, ctx, st) ==
+  LET Arg(opwant) == LET m == MeetC(ctx, opwant, aw) IN IF Tg(m) = "Bad" THEN opwant ELSE m
+      S0(opwant) == IF Tg(MeetC(ctx, opwant, aw)) = "Bad"
+                    THEN Clash(st, "aggregated argument has another type in another rule") ELSE st
+      Out(r, a) == [t |-> r.t, a |-> a, st |-> r.st]
+  IN
   CASE op = "Sum" ->
-         LET r == Chk(e, TNum, ren, path, ctx, st) IN FitC(ctx, TNum, want, r.st, "Sum gives Num")
+         LET r == Chk(e, Arg(TNum), ren, path, ctx, S0(TNum))
+         IN Out(FitC(ctx, TNum, want, r.st, "Sum gives Num"), r.t)
     [] op = "Count" ->
-         LET r == Chk(e, TAny, ren, path, ctx, st) IN FitC(ctx, TNum, want, r.st, "Count gives Num")
-    [] op \in {"Min", "Max"} -> Chk(e, want, ren, path, ctx, st)
+         LET r == Chk(e, Arg(TAny), ren, path, ctx, S0(TAny))
+         IN Out(FitC(ctx, TNum, want, r.st, "Count gives Num"), r.t)
+    [] op \in {"Min", "Max"} ->
+         LET r == Chk(e, Arg(want), ren, path, ctx, S0(want)) IN Out(r, r.t)
     [] op \in {"List", "Set"} ->
          LET w == MeetC(ctx, want, TL(TSing))
-         IN IF Tg(w) = "Bad" THEN Res(want, Clash(Chk(e, TSing, ren, path, ctx, st).st, op \o " gives a list"))
-            ELSE LET r == Chk(e, MeetC(ctx, ElemOf(w), TSing), ren, path, ctx, st) IN Res(TL(r.t), r.st)
+         IN IF Tg(w) = "Bad"
+            THEN LET r == Chk(e, Arg(TSing), ren, path, ctx, S0(TSing))
+                 IN Out(Res(want, Clash(r.st, op \o " gives a list")), r.t)
+            ELSE LET ew == MeetC(ctx, ElemOf(w), TSing)
+                     r == Chk(e, Arg(ew), ren, path, ctx, S0(ew))
+                 IN Out(Res(TL(r.t), r.st), r.t)
     [] op \in {"ArgMin", "ArgMax"} ->
          \* on the SQLite engine ArgMin / ArgMax are built from ArgMinK / ArgMaxK,
          \* which collect the arguments in a list: the argument is not a list
          LET w == MeetC(ctx, want, TSing)
-             r == Chk(e, TR(("arg" :> (IF Tg(w) = "Bad" THEN TSing ELSE w)) @@ ("value" :> TAny) @@ NoFields),
-                      ren, path, ctx, st)
-         IN FitC(ctx, FieldOf(r.t, "arg"), want, r.st, op \o " gives its argument, which is not a list")
-    [] OTHER -> Res(want, Outside(st))
+             rw == TR(("arg" :> (IF Tg(w) = "Bad" THEN TSing ELSE w)) @@ ("value" :> TAny) @@ NoFields)
+             r == Chk(e, Arg(rw), ren, path, ctx, S0(rw))
+         IN Out(FitC(ctx, FieldOf(r.t, "arg"), want, r.st, op \o " gives its argument, which is not a list"), r.t)
+    [] OTHER -> [t |-> want, a |-> TAny, st |-> Outside(st)]
 
 Chk(e, want, ren, path, ctx, st) ==
   CASE e.k = "var" ->
@@ -255,7 +273,8 @@ Chk(e, want, ren, path, ctx, st) ==
     [] e.k = "agg" ->
          LET ren2 == Enter(ren, path, DVE(e.e) \cup DVBody(e.body))
              s1 == ChkBody(e.body, ren2, Sub(path, 1), ctx, st)
-         IN ChkAgg(e.op, e.e, want, ren2, Sub(path, 2), ctx, s1)
+             r == ChkAgg(e.op, e.e, want, TAny, ren2, Sub(path, 2), ctx, s1)
+         IN Res(r.t, r.st)
     [] e.k = "op" ->
          (LET op == e.op a == e.args IN
          CASE op \in {"+", "*", "-"} /\ Len(a) = 2 ->
@@ -330,7 +349,12 @@ ChkBody(body, ren, path, ctx, st) ==
 
 -----------------------------------------------------------------------------
 (* One rule of predicate p under the column types ctx.sig.                  *)
+(* The columns of a rule head: its fields and, for every aggregated field f, *)
+(* the column of the aggregated argument, named f$arg (never printed).       *)
+ArgCol(f) == f \o "$arg"
 HeadCols(r) == {r.head[i].f : i \in 1..Len(r.head)}
+               \cup {ArgCol(r.head[i].f) : i \in {j \in 1..Len(r.head) : r.head[j].agg # ""}}
+ColOf(ctx, p, f) == IF p \in DOMAIN ctx.sig /\ f \in DOMAIN ctx.sig[p] THEN ctx.sig[p][f] ELSE TAny
 
 SweepOnce(r, p, ctx, st) ==
   LET ren == [x \in RuleScope(r) \cup {"$"} |-> x]
@@ -338,11 +362,13 @@ SweepOnce(r, p, ctx, st) ==
       Go(i, acc, s) ==
         IF i > Len(r.head) THEN [head |-> acc, st |-> s]
         ELSE LET h == r.head[i]
-                 col == IF p \in DOMAIN ctx.sig /\ h.f \in DOMAIN ctx.sig[p]
-                        THEN ctx.sig[p][h.f] ELSE TAny
-                 res == IF h.agg = "" THEN Chk(h.e, col, ren, Sub("h", i), ctx, s)
-                        ELSE ChkAgg(h.agg, h.e, col, ren, Sub("h", i), ctx, s)
-             IN Go(i + 1, (h.f :> res.t) @@ acc, res.st)
+                 col == ColOf(ctx, p, h.f)
+             IN IF h.agg = ""
+                THEN LET res == Chk(h.e, col, ren, Sub("h", i), ctx, s)
+                     IN Go(i + 1, (h.f :> res.t) @@ acc, res.st)
+                ELSE LET res == ChkAgg(h.agg, h.e, col, ColOf(ctx, p, ArgCol(h.f)),
+                                       ren, Sub("h", i), ctx, s)
+                     IN Go(i + 1, (h.f :> res.t) @@ (ArgCol(h.f) :> res.a) @@ acc, res.st)
       hd == Go(1, NoFields, st)
   IN [head |-> hd.head, st |-> ChkBody(r.body, ren, "b", ctx, hd.st)]
 
@@ -425,12 +451,23 @@ Rounds(prog, sig, dev, n) ==
   LET r == RoundOnce(prog, sig, dev)
   IN IF r.bad # {} \/ r.out \/ r.sig = sig \/ n = 0 THEN r ELSE Rounds(prog, r.sig, dev, n - 1)
 
-(* [ok, sig, bad, det, outside]: det - every column and every variable ended *)
-(* ground, i.e. the program determines its types ("fully determined");      *)
-(* outside - a construct without a typing rule was met (no verdict).        *)
+(* Columns that are never printed: the argument columns of aggregated     *)
+(* fields.                                                                 *)
+HiddenOf(prog, p) ==
+  LET pr == prog.preds[CHOOSE i \in 1..Len(prog.preds) : prog.preds[i].name = p]
+  IN UNION {{ArgCol(pr.rules[j].head[i].f) :
+               i \in {k \in 1..Len(pr.rules[j].head) : pr.rules[j].head[k].agg # ""}}
+            : j \in 1..Len(pr.rules)}
+Visible(prog, sig) ==
+  [p \in DOMAIN sig |-> [f \in (DOMAIN sig[p]) \ HiddenOf(prog, p) |-> sig[p][f]]]
+
+(* [ok, sig, bad, det, outside]: sig - the types of the (printed) columns;  *)
+(* det - every column and every variable ended ground, i.e. the program     *)
+(* determines its types ("fully determined"); outside - a construct         *)
+(* without a typing rule was met (no verdict).                              *)
 InferDev(prog, dev) ==
   LET r == Rounds(prog, Sig0(prog), dev, Len(prog.preds) + 3)
-  IN [ok |-> r.bad = {}, sig |-> r.sig, bad |-> r.bad, outside |-> r.out,
+  IN [ok |-> r.bad = {}, sig |-> Visible(prog, r.sig), bad |-> r.bad, outside |-> r.out,
       det |-> r.bad = {} /\ r.ground /\ ~r.out
               /\ \A p \in DOMAIN r.sig : \A f \in DOMAIN r.sig[p] : IsGround(r.sig[p][f])]
 
@@ -440,19 +477,19 @@ Determined(prog) == Infer(prog).det
 Signature(prog, p) == Infer(prog).sig[p]
 
 (* gamma: the column types someone (the program generator) claims.  The    *)
-(* program types under gamma iff every rule, checked against gamma alone,  *)
-(* has no clash, yields exactly gamma for its head and leaves no variable   *)
-(* without a ground type.                                                  *)
+(* program types under gamma iff propagation started from gamma (only the  *)
+(* argument columns of aggregated fields unknown) meets no clash, leaves    *)
+(* gamma as it is and leaves no variable or column without a ground type:  *)
+(* every rule then yields exactly gamma for its head.                      *)
 WellTypedUnder(prog, gamma) ==
   /\ DOMAIN gamma = PredNames(prog)
-  /\ \A i \in 1..Len(prog.preds) :
-       LET pr == prog.preds[i] IN
-       \A j \in 1..Len(pr.rules) :
-          LET ri == RuleInfer(pr.rules[j], pr.name, [sig |-> gamma, dev |-> {}])
-          IN /\ ri.bad = {}
-             /\ ri.ground /\ ~ri.out
-             /\ DOMAIN ri.head = DOMAIN gamma[pr.name]
-             /\ \A f \in DOMAIN ri.head : ri.head[f] = gamma[pr.name][f]
+  /\ LET start == [p \in PredNames(prog) |->
+                     IF HiddenOf(prog, p) = {} THEN gamma[p]
+                     ELSE [f \in HiddenOf(prog, p) |-> TAny] @@ gamma[p]]
+         r == Rounds(prog, start, {}, Len(prog.preds) + 3)
+     IN /\ r.bad = {} /\ r.ground /\ ~r.out
+        /\ Visible(prog, r.sig) = gamma
+        /\ \A p \in DOMAIN r.sig : \A f \in DOMAIN r.sig[p] : IsGround(r.sig[p][f])
 
 -----------------------------------------------------------------------------
 (* Values (LValues' tagged values as the harness decodes what SQLite       *)
